@@ -255,8 +255,9 @@ def check_C05(ctx):
     rule = ctx_rule(ctx)
     scen = vt.tlc_generate(ctx, 'GenWire', 'C05', 0)
     if ctx.quick():
-        late = [s for s in scen if '/late/' in s['id']]
-        rest = [s for s in scen if '/late/' not in s['id']]
+        keep = ('/late/', '/eager/', '/sackwrap/')
+        late = [s for s in scen if any(k in s['id'] for k in keep)]
+        rest = [s for s in scen if not any(k in s['id'] for k in keep)]
         scen = late + rest[ctx.seed % 5::5]
     wire_family(ctx, 'C05', scen, rule, nontrivial=delivered_something)
     ctx.extra['rule'] = rule + '; plus ' + (WIRE_RULE % 'C05All (per-hop delay assignments, duplicates with larger delay, production-scale timers)')
